@@ -34,13 +34,14 @@ CHECKS.update({
  'C05': dict(
    text="Lean theorems fixed_card (|S_k| = min(max(k,2),n) for every k) and fixed_nested_greedy (S_{k+1} = S_k + one new index strictly inside the top "
         "segment of the work stack; the stack is exactly the retained segments with interior points and its top has the maximal recorded score; the index is the "
-        "eps-guarded farthest interior point), for all oracles. Tie: exact correspondence of rdp_fixed for every k in 0..n+1 per curve + direct predicate.",
+        "eps-guarded farthest interior point), for all oracles. Tie: exact correspondence of rdp_fixed for every k in 0..n+1 per curve + direct predicate "
+        "(size, nesting, farthest point, maximal score) evaluated both with the package's own primitives and with a harness-owned geometric reference for distance and score.",
    note=TB + " Python's stable list.sort is modelled by a stable insertion sort (sortKeyed_perm/sortKeyed_sorted proved).",
    tech="Lean 4 proof (loop invariant: stack ~ gaps(reduced), sorted by key) + exact oracle-fed differential correspondence over the whole chain k=0..n+1",
    ref="DESIGN.md §3 C05"),
  'C06': dict(
    text="Lean theorems grdp_eq_first (grdp = S_k for the least k>=2 whose global cost is accepted, all points if none), mp_eq (S_max(k*,min(m,n))), minpoint_eq "
-        "(first threshold in descending order with >= m points, else S_m), acceptOf_mono; for every acceptance predicate/oracle. Tie: exact correspondence with a lazily "
+        "(first threshold in descending order with >= m points, else S_m), minpoint_largest_threshold (Props/C06B: the descending sort is a sorted permutation, so that is the LARGEST listed threshold reaching m points), acceptOf_mono; for every acceptance predicate/oracle. Tie: exact correspondence with a lazily "
         "asked compute_global_cost oracle (fresh cache) + predicate built from real rdp_fixed/compute_global_cost calls.",
    note=TB,
    tech="Lean 4 proof (global loop = first accepted prefix of the fixed-size refinement sequence) + exact oracle-fed differential correspondence",
@@ -74,7 +75,7 @@ CHECKS.update({
  'C02': dict(
    text="Lean theorems for every detector satisfying the range contract (DetOK / DetInterior - themselves theorems for the five detector models in C09), every gate and t2: "
         "multiKnee_total (fuel 2n+1 never exhausted), multiKnee_steps, multiKnee_eq_rec (the stack loop's sorted output IS the in-order recursion), multiKneeRec_unfold / "
-        "multiKnee_self_similar ({k} U result on points[0..k] U shifted result on points[k+1..]), multiKnee_sorted_range, multiKnee_interior, multiKnee_empty. "
+        "multiKnee_self_similar ({k} U result on points[0..k] U shifted result on points[k+1..]), multiKnee_sorted_range, multiKnee_interior, multiKnee_empty; Props/C02D discharges the contract for each of the five real detector models (multiKnee_{curv,menger,dfdt,lmethod,kneedle}_wf). "
         "Tie: exact correspondence of multi_knee of the 5 modules with criterion oracles (never the detector's own knee()), plus the self-similarity predicate evaluated with real calls.",
    note=TB + " Criterion arrays (gradients, ISODATA threshold, Menger curvature, L-method errors, Kneedle difference curve, SMAPE gate) are oracles from uts/package primitives.",
    tech="Lean 4 proof (stack machine refines structural recursion; potential 2m-1) + exact oracle-fed differential correspondence",
@@ -116,9 +117,9 @@ CHECKS.update({
  'C08': dict(
    text="Lean theorems pipeline_wf / pipeline_hull_wf for the composed post-detection pipeline (worst -> corner -> cluster filter -> mapping), for every height function, IoU/score/hull-error oracle, "
         "labelling and threshold: every filter stage is a Sublist of its input, heights are non-increasing from the worst-knee filter on, the mapped output equals reduced[k] for the surviving "
-        "reduced-space knees, is strictly increasing and a subset of the retained points. The simplifier and multi-knee stages are C01/C02 theorems (well-formed reduction; strictly increasing interior knees). "
+        "reduced-space knees, is strictly increasing and a subset of the retained points. The simplifier and multi-knee stages are C01/C02 theorems (well-formed reduction; strictly increasing interior knees); Props/C08E pipeline_end_to_end states the conclusion for the WHOLE composition pipelineFull (simplify -> multi-knee -> filters -> cluster filter -> map back). "
         "Tie: the real pipeline exactly as the demos compose it (5 simplifiers x 5 detectors x 4 linkages x 4 ranking modes) compared stage by stage with the models, on synthetic families and the bundled traces.",
-   note=TB + " Each model stage is fed the real output of the previous stage; a whole-pipeline model run is the composition of those stage functions.",
+   note=TB + " Each model stage is fed the real output of the previous stage; in addition the whole pipeline is run as ONE model call (pipeline_full, lazily asked oracles) and compared with the real end result.",
    tech="Lean 4 proof (composition of the stage theorems C07/C12/C13 with a sublist/monotone-map argument) + stage-by-stage exact differential correspondence of the real pipeline",
    ref="DESIGN.md §3 C08"),
  'C12': dict(
@@ -149,7 +150,7 @@ CHECKS.update({
  'C10': dict(
    text="Lean theorems for the Z-method loop over Q, for every z-score array, band sizes and threshold sequence: zLoop_total (terminates within K + n + 2 rounds once the threshold sequence is below min z "
         "from round K on; every productive round removes the selected point), zKnees_valid, zKnees_strict, sweep_heights (non-increasing heights), zLoop_sep / zLoop_final_separated / zPoints_separated (any two reported "
-        "knees are >= w apart in x and >= h apart in y - single- AND multi-group rounds, via the invariant Sep/Clear and the group-gap lemma), zLoop_outl_from_pts. Tie: exact index correspondence of zmethod.knees with the "
+        "knees are >= w apart in x and >= h apart in y - single- AND multi-group rounds, via the invariant Sep/Clear and the group-gap lemma), zLoop_outl_from_pts; Props/C10B exact_thresholds_reach / zLoop_total_exact (for the exact halving sequence 3, 3-dz, ... the loop terminates with no assumption on the thresholds). Tie: exact index correspondence of zmethod.knees with the "
         "model fed the package's own z-scores, integer band width, float band height and float threshold sequence; direct separation/ordering predicates on the real result.",
    note=TB + " dz below the float resolution of 3.0 is outside the generators (exact arithmetic cannot exhibit absorption); z-score ties between same-round groups are relational.",
    tech="Lean 4 proof (separation invariant + length-decreasing productive rounds) + exact oracle-fed differential correspondence",
